@@ -258,9 +258,18 @@ def run_cfg(ctx, exe, w, ops, label):
         crashed = (k, ops[k], "CRASH(rc=%d): %s" % (rc, " | ".join(summ) or msg[-1][:200]))
         problems.append(("crash", ops[k], crashed[2], ""))
         # continue after the crashing op so that one defect does not hide the others (max 25 restarts)
+        def fam(o):
+            t = o.split()
+            return " ".join(t[:2])
+        dead = {fam(ops[k])}
+        skipped_idx = []
         rest, base, restarts = ops[k + 1:], k + 1, 0
         c_out = c_out[:k] + [crashed[2]]
-        while rest and restarts < 25:
+        # one report per function family: later ops of a family that already crashed are skipped
+        alive = [o for o in rest if fam(o) not in dead]
+        ops = ops[:k + 1] + alive
+        rest = alive
+        while rest and restarts < 40:
             o2, e2, rc2 = ctx.run_lines(exe, rest, env={"C07_HW": "1"})
             if rc2 == 0 and len(o2) == len(rest):
                 c_out += o2
@@ -272,9 +281,13 @@ def run_cfg(ctx, exe, w, ops, label):
             txt = "CRASH(rc=%d): %s" % (rc2, " | ".join(summ) or msg[-1][:200])
             problems.append(("crash", rest[k2], txt, ""))
             c_out += o2[:k2] + [txt]
-            rest = rest[k2 + 1:]
+            dead.add(fam(rest[k2]))
+            done_n = len(c_out)
+            rest = [o for o in rest[k2 + 1:] if fam(o) not in dead]
+            ops = ops[:done_n] + rest
             restarts += 1
         c_out += ["SKIPPED"] * len(rest)
+    lines = ["cfg " + w] + ops
     l_out, l_err, lrc = ctx.run_lines(ctx.driver(), lines)
     if lrc != 0 or len(l_out) != len(lines):
         raise RuntimeError("Lean driver failed (rc=%d) on %s: %s" % (lrc, label, l_err[-500:]))
